@@ -13,10 +13,8 @@
 /// The execution path may also differ, which can be used to refine the stub
 /// logic.
 #[test]
-fn kani_concrete_playback_c19_radv_parse_prefix_empty_mapping_6217064601916782847() {
+fn kani_concrete_playback_c19_radv_parse_prefix_empty_mapping_4964093914905097443() {
     let concrete_vals: Vec<Vec<u8>> = vec![
-        // 0
-        vec![0],
     ];
     kani::concrete_playback_run(concrete_vals, c19_radv_parse_prefix_empty_mapping);
 }
